@@ -1,5 +1,5 @@
 (* C03, the fragment on which parse-after-write is PROVED for trees of any size and depth:
-   one-line plain paragraphs, fenced code blocks (fence of ` or ~, any length >= 3, any content
+   plain paragraphs of one or more lines, fenced code blocks (fence of ` or ~, any length >= 3, any content
    lines), block quotes and single-item lists (any marker, padding 1-4), nested arbitrarily,
    sibling blocks separated by one blank line.  This file holds the
    tree grammar, its spelling as structured lines and the pre-token tree / HTML expected
@@ -10,10 +10,11 @@ Import ListNotations.
 Local Open Scope Z_scope.
 
 Inductive ftree :=
-| FPara (c : Z) (body : str)
+| FPara (c : Z) (body : str) (more : list str)       (* the first line c :: body, then the continuation lines *)
 | FFence (ch : Z) (n : nat) (content : list sline)      (* fence ch^n, the content lines, the same fence *)
 | FQuote (ts : list ftree)
-| FItem (mk : marker) (pad : nat) (ts : list ftree).
+| FItem (mk : marker) (pad : nat) (ts : list ftree)
+| FHead (lv : nat) (c : Z) (body : str).                 (* an ATX heading: lv hashes, a space, the title c :: body *)
 
 Definition quote_s (l : sline) : sline :=
   match l with
@@ -38,10 +39,11 @@ Definition item_lines (mk : marker) (pad : nat) (inner : list sline) : list slin
 
 Fixpoint spell (t : ftree) : list sline :=
   match t with
-  | FPara c body => [SLine 0 c body]
+  | FPara c body more => SLine 0 c body :: map (fun l => SLine 0 (hd 0 l) (tl l)) more
   | FFence ch n content => SLine 0 ch (repeat ch (n - 1)) :: content ++ [SLine 0 ch (repeat ch (n - 1))]
   | FQuote ts => map quote_s (join_blank (map spell ts))
   | FItem mk pad ts => item_lines mk pad (join_blank (map spell ts))
+  | FHead lv c body => [SLine 0 35 (repeat 35 (lv - 1) ++ 32 :: c :: body)]
   end.
 Definition spell_seq (ts : list ftree) : list sline := join_blank (map spell ts).
 Definition text_of (ls : list sline) : list str := map render_line ls.
@@ -62,11 +64,12 @@ Section Mode.
                   | t :: r => pre_of ln t :: match r with [] => [] | _ => blank_entry (ln + height t) ++ seq (ln + height t + 1) r end
                   end) in
     match t with
-    | FPara c body => PParagraph ln [c :: body ++ [10]]
+    | FPara c body more => PParagraph ln ((c :: body ++ [10]) :: map (fun l => l ++ [10]) more)
     | FFence ch n content => PCodeFence ln (map render_line content) 0 (repeat ch n) [] []
     | FQuote ts => PQuote ln (seq ln ts)
     | FItem mk pad ts =>
       PList ln [PItem ln (seq ln ts) (negb md && (1 <? Z.of_nat (length ts))) 0 (Z.of_nat (length (marker_str mk) + pad)) (marker_str mk)]
+    | FHead lv c body => PHeading ln (Z.of_nat lv) (c :: body) []
     end.
   Fixpoint pre_seq (ln : Z) (ts : list ftree) : list pre :=
     match ts with
@@ -78,7 +81,7 @@ End Mode.
 (* Paragraph.parse_setext after the block *)
 Fixpoint st_after (st : pstate) (t : ftree) : pstate :=
   match t with
-  | FPara _ _ | FFence _ _ _ => st
+  | FPara _ _ _ | FFence _ _ _ | FHead _ _ _ => st
   | FQuote _ => mkPs true
   | FItem _ _ ts => fold_left st_after ts st
   end.
@@ -86,6 +89,6 @@ Definition st_seq (st : pstate) (ts : list ftree) : pstate := fold_left st_after
 
 Fixpoint depth (t : ftree) : nat :=
   match t with
-  | FPara _ _ | FFence _ _ _ => 0%nat
+  | FPara _ _ _ | FFence _ _ _ | FHead _ _ _ => 0%nat
   | FQuote ts | FItem _ _ ts => S (fold_right (fun t m => Nat.max (depth t) m) 0%nat ts)
   end.
